@@ -109,6 +109,14 @@ def apply_op(ctx, st, op, case):
                 w.new_key(account_id=a.account_id)
                 w.utxos_update(account_id=a.account_id)
                 st.flags.add('multi_account')
+        elif name == 'sweep_account':
+            # everything a NON-default account owns is swept to a foreign address and broadcast
+            accs = [a for a in getattr(st, 'accounts', [0]) if a != 0]
+            if accs:
+                a = accs[op.get('pick', 0) % len(accs)]
+                t = w.sweep(_foreign_addr(op.get('pick', 0)), account_id=a, broadcast=True, min_confirms=0)
+                _after_broadcast(st, t)
+                st.flags.add('other_account_swept')
         elif name == 'get_key':
             k = w.get_key()
             if k.address not in [x.address for x in st.keys]:
@@ -372,6 +380,7 @@ def _strategy(ctx):
         st.fixed_dictionaries({'op': st.just('delete'), 'key': st.integers(0, 5)}),
         st.fixed_dictionaries({'op': st.just('delete_funding'), 'pick': st.integers(0, 5)}),
         st.just({'op': 'new_account'}),
+        st.fixed_dictionaries({'op': st.just('sweep_account'), 'pick': st.integers(0, 3)}),
         st.just({'op': 'reopen'}), st.just({'op': 'second_reader'}),
     )
     wallet = st.fixed_dictionaries({
@@ -397,7 +406,8 @@ def _strategy(ctx):
     add_last = st.fixed_dictionaries({'op': st.just('utxo_add'), 'key': st.just(-1), 'value': value,
                                       'n': st.integers(0, 2), 'conf': st.sampled_from([1, 6])})
     accounts = st.tuples(add_last, add_last).map(
-        lambda t: [{'op': 'new_account'}, {'op': 'new_key'}, t[0], {'op': 'new_account'}, {'op': 'new_key'}, t[1]])
+        lambda t: [{'op': 'new_account'}, {'op': 'new_key'}, t[0], {'op': 'new_account'}, {'op': 'new_key'}, t[1],
+                   {'op': 'sweep_account', 'pick': 1}])
     ops = st.one_of(
         st.tuples(st.lists(fund, min_size=1, max_size=2), accounts, tail).map(lambda t: t[0] + t[1] + t[2]),
         st.tuples(st.lists(fund, min_size=1, max_size=3), tail).map(lambda t: t[0] + t[1]),
